@@ -39,6 +39,7 @@ def step (line : String) : String :=
   | "render" :: args => opRender args
   | "crlf" :: args => opCrlf args
   | "rout" :: args => opRout args
+  | "strip" :: args => opStrip args
   | "execall" :: args => opExecAll args
   | "compile" :: args => opCompile args
   | "rmdiv" :: args => opRmDiv args
